@@ -98,6 +98,10 @@ func c11Keys() []hv {
 		{"no-padding", []string{strings.TrimRight(k16, "=")}, 0},
 		{"url-alphabet", []string{"dGhlIHNhbXBsZSBub25jZ-_="}, 0},
 		{"32-hex-chars", []string{"000102030405060708090a0b0c0d0e0f"}, 0},
+		{"valid-key-plus-junk-char", []string{k16 + "x"}, 0},
+		{"valid-key-plus-extra-padding", []string{k16 + "=="}, 0},
+		{"two-keys-concatenated", []string{k16 + k16b}, 0},
+		{"valid-key-then-comma-key", []string{k16 + ", " + k16b}, 0},
 		{"space-padded", []string{"  " + k16 + " "}, 1},
 		{"noncanonical-padding-bits", []string{"AAAAAAAAAAAAAAAAAAAAAB=="}, -1},
 	}
@@ -164,7 +168,7 @@ func init() {
 	fw.Register(&fw.Prop{
 		ID:    "C11",
 		Level: "exploration",
-		Rule: "cases = the FULL cross product of a request grammar fed to Accept directly: method (6) x HTTP version (4) x Connection variants (12: case, extra tokens, several lines, empty elements, look-alikes) x Upgrade variants (9) x Sec-WebSocket-Version variants (12) x key variants (15: absent, duplicated, 15/16/17 bytes, bad base64, padded) x offered/supported subprotocol lists (13); " +
+		Rule: "cases = the FULL cross product of a request grammar fed to Accept directly: method (6) x HTTP version (4) x Connection variants (12: case, extra tokens, several lines, empty elements, look-alikes) x Upgrade variants (9) x Sec-WebSocket-Version variants (12) x key variants (19: absent, duplicated, 15/16/17 bytes, bad base64, padded) x offered/supported subprotocol lists (13); " +
 			"the oracle is an independent predicate over the generated request (RFC 7230 token lists, SHA-1/base64 computed by the harness) and a ResponseWriter that records status, headers and whether Hijack was called; plus raw requests with pipelined client frames through a real net/http server on an in-memory listener. " +
 			"distinct key = (valid?, which requirement fails, subprotocol case, via direct|wire)",
 		Exhaustive:  func(string) bool { return true },
